@@ -25,7 +25,7 @@ ACCESSORS = [
 def groups(sc, tier):
     gs = []
     for f, src in ACCESSORS:
-        g = Group("C01.K1." + f, "K1", "h_" + f, sources=[src, "src/xrayglob.c"], extra=["harness/h_scalars.c"],
+        g = Group("C01.K1." + f, "K1", "h_" + f, sources=[src], extra=["harness/h_scalars.c"],
                   enforce=f, replace=["xrl_set_error_literal"], backends=("z3", "cvc5"), timeout=600, functions=[f], native_harness="harness/h_scalars.c")
         gs.append(g)
     return gs
